@@ -10,7 +10,6 @@ import (
 	"bytes"
 	"context"
 	"fmt"
-	"net"
 	"sync"
 	"testing"
 	"time"
@@ -131,7 +130,7 @@ func runC02(c C02Case, info *kit.Info) *kit.Finding {
 	}
 	defer front.Close(2 * time.Second)
 
-	cl, err := net.Dial("tcp", front.Addr)
+	cl, err := kit.DialTCP(front.Addr, 5*time.Second)
 	if err != nil {
 		if kit.EnvNetError(err) {
 			info.Skipped = "host out of ports: " + err.Error()
@@ -139,7 +138,7 @@ func runC02(c C02Case, info *kit.Info) *kit.Finding {
 		}
 		return kit.Violation("relay:dial-refused", "cannot connect to the proxy: %v", err)
 	}
-	cconn := cl.(*net.TCPConn)
+	cconn := cl
 	defer cconn.Close()
 	dec := kit.NewStreamDecoder(key)
 	var decErr error
